@@ -459,3 +459,351 @@ Proof.
 Qed.
 
 End Inv.
+
+(* ------------------------------------------------------------------------------------------------ *)
+(** * All runs of the repaired client ([fe = fc = fl = true]) *)
+
+Fixpoint nodup_adj (l : list cst) : Prop :=
+  match l with a :: (b :: _) as t => a <> b /\ nodup_adj t | _ => True end.
+
+(* the status trace (newest first) on top of the initial DISCONNECTED: its head is the current state, and no
+   two neighbours are equal *)
+Definition trace_ok (x : g) : Prop :=
+  hd Disc (trace x ++ [Disc]) = st x /\ nodup_adj (trace x ++ [Disc]).
+
+Lemma trace_ok_step k fe fc fl x a y : trace_ok x -> trans k fe fc fl x a = Some y -> trace_ok y.
+Proof.
+  unfold trace_ok. intros [A B] H. destruct (trace_step k fe fc fl x a y H) as [[E1 E2]|[E1 E2]].
+  - rewrite E1, E2. auto.
+  - rewrite E2. simpl. split; [reflexivity|].
+    destruct (trace x ++ [Disc]) as [|s t] eqn:E.
+    + destruct (trace x); discriminate E.
+    + simpl in A. split; [congruence|exact B].
+Qed.
+
+(* sequence of states visited by a run, and the changes in a sequence of states *)
+Fixpoint sts (k : kind) (fe fc fl : bool) (x : g) (ls : list act) : list cst :=
+  match ls with
+  | [] => []
+  | a :: t => match trans k fe fc fl x a with Some y => st y :: sts k fe fc fl y t | None => [] end
+  end.
+Fixpoint changes (cur : cst) (l : list cst) : list cst :=
+  match l with [] => [] | s :: t => if cst_eqb cur s then changes s t else s :: changes s t end.
+
+Lemma cst_eqb_eq a b : cst_eqb a b = true <-> a = b.
+Proof. destruct a, b; simpl; split; congruence. Qed.
+
+Lemma status_trace_run k fe fc fl ls : forall x y, run k fe fc fl x ls = Some y ->
+  rev (trace y) = rev (trace x) ++ changes (st x) (sts k fe fc fl x ls).
+Proof.
+  induction ls as [|a t IH]; intros x y H; simpl in *.
+  - injection H as <-. now rewrite app_nil_r.
+  - destruct (trans k fe fc fl x a) as [z|] eqn:E; [|discriminate].
+    rewrite (IH z y H). simpl.
+    destruct (trace_step k fe fc fl x a z E) as [[E1 E2]|[E1 E2]].
+    + rewrite E2. destruct (cst_eqb (st x) (st z)) eqn:Q; [reflexivity|].
+      exfalso. rewrite <- E1 in Q. destruct (st z); discriminate.
+    + rewrite E2. simpl. destruct (cst_eqb (st x) (st z)) eqn:Q.
+      * apply cst_eqb_eq in Q. congruence.
+      * now rewrite <- app_assoc.
+Qed.
+
+Section AllRuns.
+Variable k : kind.
+Notation T := (trans k true true true).
+Notation R := (run k true true true).
+Notation reach := (reachable k true true true).
+
+Definition Inv (x : g) : Prop :=
+  I0 x /\ I1 x /\ I2 x /\ I5 x /\ W x /\ NW x /\ excl x /\ trace_ok x.
+
+Lemma Inv_init : Inv init.
+Proof.
+  unfold Inv, I0, hold_lock_ok, attempt_no_ok, closed_iff_closing, I1, I2, I5, W, NW, excl, trace_ok,
+    past_close_rest, rx_alive, cons_alive, rx_quiet; simpl.
+  repeat split; intros; auto; try congruence; try discriminate; try tauto; try lia.
+Qed.
+
+Lemma Inv_step x a y : Inv x -> T x a = Some y -> Inv y.
+Proof.
+  intros (A0 & A1 & A2 & A5 & AW & ANW & AE & AT) H.
+  pose proof A0 as (_ & _ & C).
+  split; [eapply I0_step; eauto|].
+  split; [eapply I1_step; eauto|].
+  split; [eapply I2_step; eauto|].
+  split; [eapply I5_step; eauto|].
+  split; [eapply W_step; eauto|].
+  split; [eapply NW_step; eauto|].
+  split; [eapply excl_step; eauto|].
+  eapply trace_ok_step; eauto.
+Qed.
+
+Theorem Inv_reachable x : reach x -> Inv x.
+Proof. apply reachable_invariant; [exact Inv_init | exact Inv_step]. Qed.
+
+(* the same, invariant by invariant (each theorem below depends only on the transition lemmas it needs) *)
+Lemma R0 x : reach x -> I0 x.
+Proof. apply reachable_invariant; [apply Inv_init | intros; eapply I0_step; eauto]. Qed.
+Lemma R1 x : reach x -> I1 x.
+Proof. apply reachable_invariant; [apply Inv_init | intros; eapply I1_step; eauto]. Qed.
+Lemma R2 x : reach x -> I0 x /\ I2 x.
+Proof.
+  apply (reachable_invariant k true true true (fun x => I0 x /\ I2 x)); [split; apply Inv_init|].
+  intros y a z [A B] H. split; [eapply I0_step; eauto | eapply I2_step; eauto].
+Qed.
+Lemma R5 x : reach x -> I0 x /\ I5 x.
+Proof.
+  apply (reachable_invariant k true true true (fun x => I0 x /\ I5 x)); [split; apply Inv_init|].
+  intros y a z [A B] H. split; [eapply I0_step; eauto | eapply I5_step; eauto].
+Qed.
+Lemma RW x : reach x -> I0 x /\ W x.
+Proof.
+  apply (reachable_invariant k true true true (fun x => I0 x /\ W x)); [split; apply Inv_init|].
+  intros y a z [A B] H. split; [eapply I0_step; eauto | eapply W_step; eauto; apply A].
+Qed.
+Lemma RNW x : reach x -> I0 x /\ NW x.
+Proof.
+  apply (reachable_invariant k true true true (fun x => I0 x /\ NW x)); [split; apply Inv_init|].
+  intros y a z [A B] H. split; [eapply I0_step; eauto | eapply NW_step; eauto; apply A].
+Qed.
+Lemma RE x : reach x -> excl x.
+Proof. apply reachable_invariant; [apply Inv_init | intros; eapply excl_step; eauto]. Qed.
+Lemma RT x : reach x -> trace_ok x.
+Proof. apply reachable_invariant; [apply Inv_init | intros; eapply trace_ok_step; eauto]. Qed.
+
+(* ---------------- C13 ---------------- *)
+
+(* (a) one receive path: a receive task that has been replaced was cancelled first *)
+Theorem single_receive_path x : reach x -> old_live x = 0%nat.
+Proof. intros H. apply R1 in H. destruct H as [A _]. exact A. Qed.
+
+(* ... and when connect() is about to create the new task, the old one is finished or has been cancelled *)
+Theorem old_receive_task_cancelled x : reach x -> hold x = HCancelWait -> rx_alive x = false \/ rx_creq x = true.
+Proof. intros H. apply R1 in H. destruct H as [_ A]. exact A. Qed.
+
+(* (b) DISCONNECTED after at least one notification (i.e. after a fault): a connect() owns the lock (attempting,
+   backing off, or finishing - it re-checks before it releases the lock), or one is scheduled, or a fault handler
+   is inside the status callback and will schedule one *)
+Theorem reconnect_never_lost x : reach x -> st x = Disc -> trace x <> [] -> reconnect_pending x.
+Proof.
+  intros H D N. apply R2 in H. destruct H as (_ & A). destruct (A D) as [E|E]; [contradiction|exact E].
+Qed.
+
+(* the lock is held exactly while a connect() coroutine is between its first and last suspension *)
+Theorem lock_iff_holder x : reach x -> (lock x = true <-> hold x <> HNone).
+Proof.
+  intros H. apply R0 in H. destruct H as (A & _). unfold hold_lock_ok in A.
+  rewrite A. destruct (hold x); split; congruence.
+Qed.
+
+Theorem fault_reported x a y c : reach x -> fault_cb a = Some c -> st x <> Closed -> T x a = Some y ->
+  st y = Disc /\ reconnect_pending y /\
+  (st x = Conn -> c <> CbNone /\ trace y = Disc :: trace x) /\
+  (st x = Disc -> c = CbNone /\ trace y = trace x).
+Proof. intros _. apply fault_step. Qed.
+
+(* (c) a failed attempt number n is followed by a sleep of wait2 n half-seconds, 0.5 s <= . <= 10 s, and then by
+   attempt n+1 - for every n (no give-up) *)
+Theorem retry_delay x a y d : reach x -> a = AImplFail d \/ a = AImplFailOpened d -> T x a = Some y ->
+  exists n, (1 <= n)%nat /\ (hold x = HAwaitImpl n \/ hold x = HAwaitDrain n) /\ hold y = HBackoff n /\
+            d = wait2 (Z.of_nat n) /\ 1 <= d <= 20 /\ lock y = true /\ st y = st x.
+Proof.
+  intros H A E. apply R0 in H. destruct H as (A0 & A1 & _).
+  destruct (connect_fail_step k _ _ _ x a y d A A1 A0 E) as (n & B1 & B2 & B3 & B4 & B5 & B6 & _).
+  exists n. repeat split; auto; try lia.
+  unfold attempt_no_ok in A1. destruct B1 as [B1|B1]; rewrite B1 in A1; exact A1.
+Qed.
+
+Theorem retry_continues x n : hold x = HBackoff n -> st x <> Closed -> allowed x ABackoffDone = true ->
+  exists y, T x ABackoffDone = Some y /\ hold y = HAwaitImpl (S n) /\ attempts y = S (attempts x).
+Proof.
+  intros A C B. unfold trans. rewrite B, A. simpl. unfold is_closed.
+  destruct (st x) eqn:E; try congruence; simpl; eexists; repeat split.
+Qed.
+
+(* (d) bounded bursts: a run in which every step is taken by a task in the middle of its event-loop step
+   (the receive loop after a `_receive_impl` that returned without suspending, the consumer after a callback that
+   did not suspend) is no longer than the buffered bytes / queued messages allow *)
+Fixpoint busy_run (fe fc fl : bool) (x : g) (ls : list act) : option g :=
+  match ls with
+  | [] => Some x
+  | a :: t => if busy x then match trans k fe fc fl x a with Some y => busy_run fe fc fl y t | None => None end else None
+  end.
+
+Lemma burst_bounded ls : forall x y, excl x -> busy_run true true true x ls = Some y -> (length ls <= mu x)%nat.
+Proof.
+  induction ls as [|a t IH]; intros x y E H; simpl in *; [lia|].
+  destruct (busy x) eqn:B; [|discriminate]. destruct (T x a) as [z|] eqn:S; [|discriminate].
+  pose proof (busy_step k true true x a z E B S). pose proof (excl_step k _ _ _ x a z E S) as E'.
+  specialize (IH z y E' H). lia.
+Qed.
+
+Theorem never_monopolises x ls y : reach x -> busy_run true true true x ls = Some y ->
+  (length ls <= S (Z.to_nat (Z.max (buf x) (q x))))%nat.
+Proof.
+  intros H B. apply RE in H.
+  pose proof (burst_bounded ls x y H B) as M. unfold mu in M. destruct (rx x); try destruct (cons x); lia.
+Qed.
+
+(* (e) a successful connect in a non-CLOSED client: CONNECTED is reported; the connect() coroutine finishes by
+   creating a fresh receive task (after cancelling the old one) *)
+Theorem connect_succeeds x y cb : st x <> Closed -> T x (AImplOk cb) = Some y ->
+  st y = Conn /\ (st x <> Conn -> cb <> CbNone /\ trace y = Conn :: trace x) /\
+  match cb with
+  | CbSusp => hold y = HStatusCb
+  | _ => (rx_alive x = true /\ hold y = HCancelWait /\ rx_creq y = true) \/
+         (rx_alive x = false /\ rx y = RCreated /\ rx_creq y = false /\ lock y = false)
+  end.
+Proof. apply connect_ok_step. Qed.
+
+Theorem connect_finishes x a y : reach x -> lock x = true -> T x a = Some y -> lock y = false ->
+  st y = Closed \/
+  (rx y = RCreated /\ rx_creq y = false /\ old_live y = 0%nat /\
+   (st y = Conn \/ (st y = Disc /\ (0 < pending_connects y)%nat))).
+Proof.
+  intros H L S U. pose proof (reachable_step _ _ _ _ _ _ _ H S) as H'. apply single_receive_path in H'.
+  apply R0 in H. destruct H as (A & _).
+  destruct (lock_release_step k _ _ x a y A L S U) as [C|(B1 & B2 & B3)]; [left; exact C|right; auto].
+Qed.
+
+Theorem fresh_receive_task_runs x y : st x <> Closed -> T x ARxStart = Some y -> rx x = RCreated /\ rx y = RRun.
+Proof. apply rx_start_step. Qed.
+
+(* ---------------- C14 ---------------- *)
+
+(* (a) CLOSED is absorbing: no step changes the state, starts a connection attempt or invokes the status callback *)
+Theorem closed_absorbing ls : forall x y, st x = Closed -> R x ls = Some y ->
+  st y = Closed /\ attempts y = attempts x /\ trace y = trace x.
+Proof.
+  induction ls as [|a t IH]; intros x y C H; simpl in H.
+  - injection H as <-. auto.
+  - destruct (T x a) as [z|] eqn:S; [|discriminate].
+    destruct (closed_step k _ _ x a z C S) as (C1 & C2 & C3).
+    destruct (IH z y C1 H) as (D1 & D2 & D3). repeat split; congruence.
+Qed.
+
+Theorem closed_iff_close_called x : reach x -> (st x = Closed <-> closing x <> KNone).
+Proof. intros H. apply R0 in H. destruct H as (_ & _ & A). exact A. Qed.
+
+(* every connection that comes up after close() was called is closed at once, except a serial port whose
+   configuration drain is still pending or has failed *)
+Theorem link_shut_new x w : reach x -> closing x <> KNone -> (n0 x <= w < next_w x)%nat ->
+  In w (closed_w x) \/ In w (drainfail_w x) \/ (writer x = Some w /\ awaiting_drain x).
+Proof. intros H. apply RNW in H. destruct H as (_ & A). intros C L. exact (A C w L). Qed.
+
+(* the current link, once close() is past `self.writer.close()` *)
+Theorem link_shut_current x w : reach x -> past_close_rest x -> writer x = Some w ->
+  In w (closed_w x) \/ In w (drainfail_w x) \/ awaiting_drain x.
+Proof.
+  intros H P E. apply RW in H. destruct H as (_ & A).
+  specialize (A P). rewrite E in A. exact A.
+Qed.
+
+(* (b) the status callback: invoked exactly at the state changes, in order *)
+Theorem status_trace_faithful ls y : R init ls = Some y ->
+  rev (trace y) = changes Disc (sts k true true true init ls).
+Proof. intros H. apply status_trace_run in H. exact H. Qed.
+
+Theorem status_trace_no_repeat x : reach x -> hd Disc (trace x ++ [Disc]) = st x /\ nodup_adj (trace x ++ [Disc]).
+Proof. intros H. apply RT in H. exact H. Qed.
+
+Theorem status_once_per_change x a y : T x a = Some y ->
+  (st y = st x /\ trace y = trace x) \/ (st y <> st x /\ trace y = st y :: trace x).
+Proof. apply trace_step. Qed.
+
+(* (c) an exception raised by the status callback (or by the receive callback) does not affect the client *)
+Theorem callback_exception_harmless ls : forall x, R x (map act_norm ls) = R x ls.
+Proof.
+  induction ls as [|a t IH]; intros x; simpl; [reflexivity|].
+  rewrite cb_raise_harmless. destruct (T x a); auto.
+Qed.
+
+(* (d) after close() has returned *)
+Theorem after_close_returned x : reach x -> closing x = KDone ->
+  st x = Closed /\ cons x = CDone /\ rx_quiet x = true /\
+  (forall o, T x (AConsGot o) = None) /\ T x AConsCbDone = None /\
+  (forall o, T x (ARxIter o) = None).
+Proof.
+  intros H E. apply R5 in H. destruct H as ((_ & _ & A) & (_ & B & _ & C)).
+  specialize (B E). specialize (C (or_intror E)).
+  assert (cons x = CDone) as F by (unfold cons_alive in B; destruct (cons x); congruence).
+  repeat split; auto.
+  - apply A. congruence.
+  - intros o. unfold trans. destruct (negb (allowed x (AConsGot o))); [reflexivity|]. now rewrite F.
+  - unfold trans. destruct (negb (allowed x AConsCbDone)); [reflexivity|]. now rewrite F.
+  - intros o. unfold trans. destruct (negb (allowed x (ARxIter o))); [reflexivity|].
+    unfold rx_quiet in C. destruct (rx x); congruence.
+Qed.
+
+(* ... the client's own tasks finish: at most [fin_measure x] further steps, whatever the schedule *)
+Fixpoint all_background (ls : list act) : bool :=
+  match ls with [] => true | a :: t => background a && all_background t end.
+
+Theorem background_tasks_finish ls : forall x y, reach x -> closing x = KDone -> all_background ls = true ->
+  R x ls = Some y -> (length ls <= fin_measure x)%nat.
+Proof.
+  induction ls as [|a t IH]; intros x y H E B S; simpl in *; [lia|].
+  apply andb_prop in B. destruct B as [B1 B2]. destruct (T x a) as [z|] eqn:Z; [|discriminate].
+  pose proof (R5 x H) as ((_ & _ & A) & A5).
+  destruct (fin_step k _ _ x a z A A5 E B1 Z) as [E' M].
+  specialize (IH z y (reachable_step _ _ _ _ _ _ _ H Z) E' B2 S). lia.
+Qed.
+End AllRuns.
+
+(* ------------------------------------------------------------------------------------------------ *)
+(** * The code as it was: the three defects as runs of the model with the repair switched off *)
+
+(* F-eofspin: after end of stream `readline()` returns b'' at once; the receive loop calls it again without ever
+   suspending: an unbounded burst *)
+Definition spin_prefix : list act :=
+  [AUserConnect; AConnEntry true; AImplOk CbRet; AConsStart; ARxStart; ARxIter RxSusp; AEnvEof; ARxIter (RxRet 0 0)].
+
+Lemma spin_forever k fe fc fl s a : busy s = true -> trans k fe fc fl s a = Some s ->
+  forall n, busy_run k fe fc fl s (repeat a n) = Some s.
+Proof. intros B S. induction n as [|n IH]; simpl; [reflexivity|]. now rewrite B, S. Qed.
+
+Example eofspin_as_it_was : exists s,
+  run KText false true true init spin_prefix = Some s /\ busy s = true /\ st s = Conn /\
+  forall n, busy_run KText false true true s (repeat (ARxIter (RxRet 0 0)) n) = Some s.
+Proof.
+  eexists. split; [vm_compute; reflexivity|]. split; [reflexivity|]. split; [reflexivity|].
+  apply spin_forever; vm_compute; reflexivity.
+Qed.
+
+(* the same prefix is a run of the repaired model up to the last step, which is refused: an empty read raises *)
+Example eofspin_repaired :
+  run KText true true true init spin_prefix = None /\
+  exists s, run KText true true true init (removelast spin_prefix ++ [ARxIter (RxRaise 0 CbRet)]) = Some s /\
+            st s = Disc /\ pending_connects s = 1%nat /\ rx s = RDone.
+Proof. split; [vm_compute; reflexivity|]. eexists. vm_compute. repeat split. Qed.
+
+(* F-closerace: close() while `open_connection` is pending, then the connection comes up *)
+Definition closerace : list act :=
+  [AConsStart; AUserConnect; AConnEntry true; AClose CbRet; AConsCancelled; ACloseTimer; AImplOk CbRet].
+
+Example closerace_as_it_was : exists x,
+  run KEByte true false true init closerace = Some x /\
+  st x = Conn /\ trace x = [Conn; Closed] /\ closing x = KDone /\ writer x = Some 0%nat /\ closed_w x = [] /\ rx x = RCreated.
+Proof. eexists. vm_compute. repeat split. Qed.
+
+Example closerace_repaired : exists x,
+  run KEByte true true true init (removelast closerace ++ [AImplOk CbNone]) = Some x /\
+  st x = Closed /\ trace x = [Closed] /\ writer x = Some 0%nat /\ closed_w x = [0%nat] /\ rx x = RNone /\ lock x = false.
+Proof. eexists. vm_compute. repeat split. Qed.
+
+(* F-connect-lost: a fault is reported while connect() is still inside the status callback of CONNECTED; the
+   handler's connect() finds the lock taken and returns; the first connect() releases the lock without looking *)
+Definition connect_lost : list act :=
+  [AConsStart; AUserConnect; AConnEntry true; AImplOk CbSusp;      (* link up; the CONNECTED status callback is slow *)
+   ASendEntry (SFault CbRet);                                       (* send(): write error -> DISCONNECTED, create_task(connect()) *)
+   AConnEntry false;                                                (* that connect(): "connect is already running" *)
+   AConnCbDone; ARxStart; ARxIter RxSusp].                          (* the first connect() finishes and releases the lock *)
+
+Example connect_lost_as_it_was : exists x,
+  run KEByte true true false init connect_lost = Some x /\
+  st x = Disc /\ lock x = false /\ pending_connects x = 0%nat /\ send_cb x = 0%nat /\ rx x = RWait /\ trace x = [Disc; Conn].
+Proof. eexists. vm_compute. repeat split. Qed.
+
+Example connect_lost_repaired : exists x,
+  run KEByte true true true init connect_lost = Some x /\ st x = Disc /\ pending_connects x = 1%nat.
+Proof. eexists. vm_compute. repeat split. Qed.
